@@ -2,6 +2,7 @@ SPECIFICATION Spec
 CONSTANTS
   MaxRows = 2
   Depth = 3
+  Ordered = FALSE
   TypeNames = {"Triple", "PairOpt"}
 INVARIANTS Agree WitnessSound WitnessComplete ArmAlwaysFound RowOrderIrrelevant Report
 CHECK_DEADLOCK FALSE
